@@ -225,18 +225,39 @@ class TaintInterp:
     # ---- iteration-order context: the order taints of the loops being executed (in this or a calling function) and, for
     #      each, the names whose value survives an iteration.  Conditions go into `pc`; the order of a loop matters only
     #      where something is accumulated (appended, concatenated, inserted, yielded, kept for the next iteration).
-    def oc(self) -> frozenset:
+    def oc(self, selected_by=()) -> frozenset:
+        """order taint of the loops being executed; a loop whose variable (a node id, unique per pass) selects the object
+        that is being changed does not order the changes made to that object: every pass works on another one"""
         r = set()
-        for ot, _ in getattr(self, "octx", []):
-            r |= ot
+        for ent in getattr(self, "octx", []):
+            if selected_by and len(ent) > 2 and ent[2] & set(selected_by):
+                continue
+            r |= ent[0]
         return frozenset(r)
 
     def oc_for(self, name: str) -> frozenset:
         r = set()
-        for ot, carried in getattr(self, "octx", []):
+        for ent in getattr(self, "octx", []):
+            ot, carried = ent[0], ent[1]
             if carried is None or name in carried:
                 r |= ot
         return frozenset(r)
+
+    @staticmethod
+    def _selector_names(expr) -> set:
+        """names that pick the object `expr` denotes out of a container:  X[k] / X.setdefault(k, ..) / X.get(k) -> {k}"""
+        out = set()
+        while True:
+            if isinstance(expr, ast.Subscript):
+                if isinstance(expr.slice, ast.Name):
+                    out.add(expr.slice.id)
+                expr = expr.value
+            elif isinstance(expr, ast.Call) and isinstance(expr.func, ast.Attribute) and expr.func.attr in ("setdefault", "get") and expr.args:
+                if isinstance(expr.args[0], ast.Name):
+                    out.add(expr.args[0].id)
+                expr = expr.func.value
+            else:
+                return out
 
     @staticmethod
     def _carried_names(fn_node, loop) -> Optional[set]:
@@ -371,7 +392,7 @@ class TaintInterp:
         if isinstance(st, ast.Return):
             v = self.ev(st.value, env, pc, fi) if st.value is not None else V("none")
             # a return from inside a loop hands out what the first suitable iteration produced
-            inner = frozenset().union(*[ot for ot, _ in getattr(self, "octx", [])[getattr(fr, "octx_base", 0):]]) if getattr(self, "octx", None) else E
+            inner = frozenset().union(*[ent[0] for ent in getattr(self, "octx", [])[getattr(fr, "octx_base", 0):]]) if getattr(self, "octx", None) else E
             fr.ret = join(fr.ret, add(v, pc | inner))
             return True
         if isinstance(st, ast.If) and not st.orelse and len(st.body) == 1 and isinstance(st.body[0], ast.Assign) and isinstance(st.test, ast.Compare) \
@@ -425,7 +446,15 @@ class TaintInterp:
                     del one_per_iter[nm_]
             if not hasattr(self, "octx"):
                 self.octx = []
-            self.octx.append((frozenset(ot), self._carried_names(fi.node, st)))
+            # loop variables that hold a node id: unique per pass
+            uniq = set()
+            if el is not None and el.kind == "node" and isinstance(st.target, ast.Name):
+                uniq.add(st.target.id)
+            elif el is not None and el.kind == "tuple" and el.items and isinstance(st.target, (ast.Tuple, ast.List)):
+                for t_, x_ in zip(st.target.elts, el.items):
+                    if isinstance(t_, ast.Name) and x_ is not None and x_.kind == "node":
+                        uniq.add(t_.id)
+            self.octx.append((frozenset(ot), self._carried_names(fi.node, st), frozenset(uniq)))
             try:
                 for _ in range(3):
                     self.assign(st.target, el, env, pc, fi)
@@ -534,7 +563,8 @@ class TaintInterp:
             # keyed by a node id (unique per atom): which value ends up under the key does not depend on the order
             # in which the atoms were visited; only the dictionary's own (insertion) order does
             vpc = E if key.kind == "node" else pc
-            nb = V("map", base.t, join(base.elem, add(v, kt | vpc)), base.ot | pc | self.oc(), base.oid, x=join(base.x, key) if isinstance(base.x, V) else key)
+            sel = self._selector_names(base_expr)
+            nb = V("map", base.t, join(base.elem, add(v, kt | vpc)), base.ot | (pc if not sel else E) | self.oc(sel), base.oid, x=join(base.x, key) if isinstance(base.x, V) else key)
             self.rebind(base_expr, nb, env, fi)
         elif base.kind == "nodeattrs":            # m.nodes[a][KEY] = v
             g, keyname = base.x
@@ -882,7 +912,31 @@ class TaintInterp:
             k = self.ev(e.key, env2, pc, fi)
             v = self.ev(e.value, env2, pc, fi)
             return mp(add(v, without(tt(k), LABEL)), ot, oid, key=k)
-        return self._comp(e, env, pc, fi, mk)
+        out = self._comp(e, env, pc, fi, mk)
+        # {x: i for i, x in enumerate(xs)}: every key gets a number of its own (a ranking)
+        if len(e.generators) == 1 and not e.generators[0].ifs:
+            g = e.generators[0]
+            if isinstance(g.iter, ast.Call) and isinstance(g.iter.func, ast.Name) and g.iter.func.id == "enumerate" and isinstance(g.target, ast.Tuple) and len(g.target.elts) == 2 \
+                    and all(isinstance(t_, ast.Name) for t_ in g.target.elts) and isinstance(e.key, ast.Name) and isinstance(e.value, ast.Name) \
+                    and e.key.id == g.target.elts[1].id and e.value.id == g.target.elts[0].id and out.kind == "map":
+                out = V("map", out.t, out.elem, out.ot, ("rank", out.oid), x=out.x)
+        return out
+
+    def _rank_key(self, fv: V) -> bool:
+        """key=lambda p: RANK[p] / RANK[p[0]] with RANK a ranking of the elements: no two elements share a key"""
+        if fv.kind != "func" or fv.x[0] != "lambda":
+            return False
+        lam, cenv = fv.x[1], fv.x[2]
+        if len(lam.args.args) != 1:
+            return False
+        p_ = lam.args.args[0].arg
+        b = lam.body
+        if isinstance(b, ast.Subscript) and isinstance(b.value, ast.Name) and b.value.id in cenv:
+            m_ = cenv[b.value.id]
+            arg_ok = (isinstance(b.slice, ast.Name) and b.slice.id == p_) or \
+                (isinstance(b.slice, ast.Subscript) and isinstance(b.slice.value, ast.Name) and b.slice.value.id == p_ and isinstance(b.slice.slice, ast.Constant) and b.slice.slice.value == 0)
+            return arg_ok and m_.kind == "map" and isinstance(m_.oid, tuple) and m_.oid[:1] == ("rank",)
+        return False
 
     def e_Subscript(self, e, env, pc, fi):
         b = self.ev(e.value, env, pc, fi)
@@ -1105,6 +1159,10 @@ class TaintInterp:
             # order-insensitive consumers: only the values matter
             r = E
             for x in a:
+                if x.kind == "tuple" and len(a) == 1:
+                    # the smaller / larger end of one edge: which end was stored first plays no part
+                    r |= frozenset(t for t in vt(x) if not (t[0] == ORDER and "orientation" in t[1]))
+                    continue
                 r |= vt(x)
             if name in ("max", "min") and "key" in kw:
                 r |= allt      # ties under a key function are broken by position
@@ -1234,7 +1292,10 @@ class TaintInterp:
             # sorted(edge): a pair whose orientation is tainted becomes a clean ordered pair; its order is decided by the values
             base = without(src.t, ORDER)
             el = None
-            for i in src.items:
+            items_ = list(src.items)
+            if len(items_) == 2:
+                items_ = list(self._strip_orientation(items_[0], items_[1]))
+            for i in items_:
                 el = join(el, i)
             el = add(el if el is not None else sc(), base)
             return seq(el, vt(el) | base, ("sorted", id(e)))
@@ -1243,7 +1304,7 @@ class TaintInterp:
         if key is not None:
             # order = key values; ties keep the input order (stable sort)
             kv = self.call_value(key, [el], {}, e, {}, E, fi)
-            if self._injective_key(key):
+            if self._injective_key(key) or self._rank_key(key):
                 # different elements never share a key: the result is ordered by the key values alone
                 return seq(el, tt(kv), ("sorted", id(e)))
             if kv.kind == "tuple" and el.kind == "node" and any(i.kind == "node" for i in kv.items):
